@@ -184,6 +184,8 @@ inductive Why where
   | content
   /-- a lookup crashed or returned a nil client -/
   | broken
+  /-- the configuration the program wrote is refused when it starts again -/
+  | restart
   deriving DecidableEq, Repr
 
 def Why.token : Why → String
@@ -193,6 +195,7 @@ def Why.token : Why → String
   | .settings => "C04.settings"
   | .content => "C04.registry-content"
   | .broken => "C04.lookup-broken"
+  | .restart => "C04.restart-refused"
 
 /-- "MACs (6/8/20 bytes)": the only hardware-address lengths there are
 (`net.ParseMAC`, and the DHCP server validates the same set). -/
